@@ -41,6 +41,9 @@ add('C12', 'recorder on the real check_performance_for_discipline with a custom 
 add('C19', 'fresh-process outcome table as oracle; recorders on schema_valid / valid_against_schema compare every call of generated call sequences; audit hook for network access',
     'Every distinct call of the alphabet is first executed alone in a fresh interpreter; then all sequences of length <= 3 over each cache key, cross-key pairs and seeded long sequences overflowing the 20-entry caches are run in-process with every outcome compared with the table; a sample of sequences is re-run in fresh interpreters to validate the in-process reset.',
     'State reset between sequences = clearing the two module caches; exhaustive only over the per-key alphabets at length <= 3.', 'C19')
+add('C18', 'differential monitor: the real Python functions vs their JavaScript twins loaded in place from js/src by a long-lived node bridge, over the C06/C11 grids',
+    'Each of the seven ported pairs is driven with the same inputs on both sides (decimal strings x precision, durations x precision, documented h:m:s strings, mark spellings, every scoring-table key and spelling variants, every Tyrving table x age x marks x forms incl. hand-timed tenths, every QuadKids row); values compared numerically / exactly, refusal compared with refusal.',
+    'Only the import lines of js/src are rewritten (to require()); JS and Python doubles agree via JSON shortest round-trip text.', 'C18')
 _all = ['C%02d' % i for i in range(1, 20)]
 for p in _all:
     if p not in CHECKS:
